@@ -3,6 +3,7 @@
 //! implementation did, same line protocol as the driver's answers) and `<out>/tags.txt`.
 mod enc;
 mod fmtop;
+mod frameop;
 mod gen;
 mod mock;
 mod parseop;
@@ -74,6 +75,13 @@ impl Out {
             None => writeln!(self.expect, "-").unwrap(),
             Some(m) => writeln!(self.expect, "!{}", m.replace('\n', " ")).unwrap(),
         }
+        self.n += 1;
+    }
+    fn frame(&mut self, c: &frameop::FrameCase) {
+        writeln!(self.cases, "{}", c.encode()).unwrap();
+        writeln!(self.imp, "{}", c.run()).unwrap();
+        writeln!(self.tags, "{}", c.tag).unwrap();
+        writeln!(self.expect, "-").unwrap();
         self.n += 1;
     }
     /// a `parse` case; `expect` = what the author of the text intended ("-" = no expectation)
@@ -235,6 +243,16 @@ fn gen_profile(profile: &str, seed: u64, n: usize, thorough: bool, out: &mut Out
         "c12" => {
             for _ in 0..n {
                 out.script(&gen::gen_c12(&mut r));
+            }
+        }
+        "c20" => {
+            let mut cases = vec![];
+            frameop::exhaustive_cuts(&mut r, thorough, &mut |c| cases.push(c));
+            for c in &cases {
+                out.frame(c);
+            }
+            for _ in 0..n {
+                out.frame(&frameop::gen_frame(&mut r));
             }
         }
         "c18hash" => {
